@@ -1,4 +1,4 @@
-\* thorough: pool as written, 2 clients x <= 2 messages, 2 workers: dispatch-level and delivery properties
+\* thorough: pool as written, 2 clients x 1 message, 2 workers, broadcast replies: dispatch-level and delivery properties
 CONSTANTS
   c1 = c1
   c2 = c2
@@ -7,11 +7,11 @@ CONSTANTS
   w2 = w2
   w3 = w3
   Clients <- CS2
-  MaxMsgs = 2
+  MaxMsgs = 1
   MaxPings = 0
   Workers <- WS2
   Heartbeat = FALSE
-  Reply <- ReplyUni
+  Reply <- ReplyBc
   ExtScript <- ExtNone
   Mode = "free"
   ShutdownMode = "any"
@@ -19,5 +19,6 @@ CONSTANTS
 INIT Init
 NEXT Next
 SYMMETRY Sym
+VIEW MCView
 INVARIANTS TypeOK CurInStreams DispatchInvs DeliveryInvs
 CHECK_DEADLOCK FALSE
